@@ -5,3 +5,4 @@ pub mod c07;
 pub mod c08;
 pub mod c09;
 pub mod c02;
+pub mod c11;
